@@ -101,6 +101,9 @@ def run_impl(case):
         su = Scores(pos.astype(np.uint8)[::-1].copy(), neg.astype(np.uint8)[::-1].copy(), score_class=case["sc"], equal_class=case["ec"], **kw)
         out["cm_u8"] = mats(su, thr)
         out["cm_swap_u8"] = mats(su.swap(), thr)
+        if len(pos) and len(neg):
+            out["auc_u8"] = [enc(float(su.auc())), enc(float(su.auc(lower=0.25, upper=0.75))), enc(float(su.swap().auc()))]
+            out["auc_f8"] = [enc(float(s.auc())), enc(float(s.auc(lower=0.25, upper=0.75))), enc(float(sw.auc()))]
     targets = np.array([fl(t) for t in case["targets"]], dtype=float)
     rel, _ = tc.relevant(case)
     if rel:
@@ -189,6 +192,9 @@ def oracle(case, res):
         fails.append(("C08/swap-flags", f"swapped object has flags/easy counts {r['swap_flags']}"))
     if sorted(F(x) for x in r["swap_pos"]) != sorted(F(x) for x in case["neg"]) or sorted(F(x) for x in r["swap_neg"]) != sorted(F(x) for x in case["pos"]):
         fails.append(("C08/swap-scores", "swapped object does not hold the other class's scores"))
+    if "auc_u8" in r and r["auc_u8"] != r["auc_f8"]:
+        fails.append((f"C08/uint8-auc/{cfg}", f"auc(), auc(0.25, 0.75), swap().auc() of the scores held as a uint8 array = {[float(F(v)) for v in r['auc_u8']]}, "
+                      f"of the same scores as float64 = {[float(F(v)) for v in r['auc_f8']]} (the identity map must not change the AUC)"))
     if "cm_u8" in r:
         for j, m in enumerate(r["cm"]):
             if r["cm_u8"][j] != m:
